@@ -16,6 +16,10 @@ def run(ck, tier, seed):
     # pseudo-random strings over each font's characters: clusters (attached glyphs with shifts) no corpus line has
     for k, rj in enumerate(corpus.random_jobs(n=80 if q else 1500, seed=seed)):
         jobs.append({"font": rj["font"], "cps": rj["cps"], "dir": rj["dir"], "p2": p2s[1:4] if q else p2s, "lineno": 100000 + k})
+    # strings over each shipped font's own cmap (every font with a Silf table, also the small test fonts), in the font's
+    # direction and the opposite one: the final positioning walks the slots in reverse order there
+    for k, cj in enumerate(corpus.cmap_jobs(n=25 if q else 300, seed=seed, dirs=(0, 1, 3))):
+        jobs.append({"font": cj["font"], "cps": cj["cps"], "dir": cj["dir"], "p2": p2s[1:4] if q else p2s, "lineno": 200000 + k})
     jf = os.path.join(tmp, "jobs.ndjson")
     rec = os.path.join(tmp, "pairs.ndjson")
     open(jf, "w").write("\n".join(json.dumps(j) for j in jobs) + "\n")
